@@ -304,10 +304,25 @@ impl K {
                         let ctx = rd.supplier_provide_changes(state);
                         drop(rd);
                         match ctx {
-                            Ok(ctx) => match wr.consumer_apply_changes(ctx).and_then(|_| wr.commit()) {
-                                Ok(()) => "ok".to_string(),
-                                Err(e) => class_of(&e),
-                            },
+                            Ok(ctx) => {
+                                use kanidmd_lib::repl::proto::{ConsumerState, ReplIncrementalContext};
+                                // "ok" only when the supplier actually supplied changes and the consumer applied them
+                                let kind = match &ctx {
+                                    ReplIncrementalContext::V1 { .. } => "ok",
+                                    ReplIncrementalContext::NoChangesAvailable => "nochange",
+                                    ReplIncrementalContext::RefreshRequired => "refresh",
+                                    ReplIncrementalContext::UnwillingToSupply => "unwilling",
+                                    ReplIncrementalContext::DomainMismatch => "mismatch",
+                                };
+                                match wr.consumer_apply_changes(ctx) {
+                                    Ok(ConsumerState::Ok) => match wr.commit() {
+                                        Ok(()) => kind.to_string(),
+                                        Err(e) => class_of(&e),
+                                    },
+                                    Ok(ConsumerState::RefreshRequired) => "refresh".to_string(),
+                                    Err(e) => class_of(&e),
+                                }
+                            }
                             Err(e) => class_of(&e),
                         }
                     }
